@@ -54,8 +54,8 @@ LoopStep == /\ phase = "loop"
             /\ IF i > Len(table) THEN phase' = "done" /\ UNCHANGED <<i, highestMask, ret>>
                ELSE /\ i' = i + 1 /\ phase' = "loop"
                     /\ IF ~PContains(table[i].p, pkt.fam, pkt.dst, W) THEN UNCHANGED <<highestMask, ret>>
-                       ELSE IF table[i].p.len < highestMask THEN UNCHANGED <<highestMask, ret>>
-                       ELSE highestMask' = table[i].p.len /\ ret' = EntryRoute(table, i, pkt)
+                       ELSE IF MaskBits(table[i].p, W) < highestMask THEN UNCHANGED <<highestMask, ret>>
+                       ELSE highestMask' = MaskBits(table[i].p, W) /\ ret' = EntryRoute(table, i, pkt)
             /\ UNCHANGED <<table, pkt, pol>>
 
 AddRule == /\ phase \in {"pick", "pol"} /\ Len(table) = 0 /\ Len(pol.rules) < MaxRules
@@ -107,11 +107,11 @@ IA(isd, as) == [isd |-> isd, as |-> as]
 Rule(act, f, t, nets, neg) == [act |-> act, from |-> f, to |-> t, nets |-> nets, neg |-> neg]
 P(fam, dst, tos, frag) == [fam |-> fam, dst |-> dst, tos |-> tos, frag |-> frag]
 
-McPrefixes == {Pfx(4, 0, 0), Pfx(4, 0, 1), Pfx(4, 4, 2), Pfx(4, 5, 4), Pfx(6, 0, 1)}
+McPrefixes == {Pfx(4, 0, 0), Pfx(4, 0, 1), Pfx(4, 4, 2), Pfx(4, 5, 4), Pfx(6, 0, 1), Pfx(4, 0, 0 - 28)}
 McClassLists == {<<Cl("true", 1)>>, <<Cl("tos", 0), Cl("true", 1)>>, <<Cl("tos", 1)>>}
 McClassListsQuick == {<<Cl("tos", 0), Cl("true", 1)>>, <<Cl("tos", 1)>>}
 McPkts == {P(4, d, t, f) : d \in {0, 4, 5, 7, 9, 15}, t \in {0, 184}, f \in {0}} \cup
-          {P(4, 5, 0, 1), P(4, 5, 184, 2), P(6, 5, 0, 0), P(6, 9, 184, 0)}
+          {P(4, 5, 0, 1), P(4, 5, 184, 2), P(6, 5, 0, 0), P(6, 9, 184, 0), P(4, 0 - 1, 0, 0), P(6, 0 - 1, 184, 0)}
 AnyIA == IAM(0, 0, 0)
 McRules == {Rule(a, f, AnyIA, n[1], n[2]) : a \in {"accept", "reject", "advertise"},
                                              f \in {AnyIA, IAM(1, 1, 1)},
